@@ -414,6 +414,11 @@ def o5(W, ob):
                     continue
                 is_pos = any(re.search(r'(?:^|[^A-Za-z0-9_])\w*#%d(?![0-9])' % l, k) for k in pos_keys)
                 n += 1
+                if not is_pos:
+                    ctl, use = liveness.control_only(f, l)
+                    if ctl:
+                        ob.ok('%s: the scalar `%s` carried from record to record only feeds comparisons and its own update (a budget / counter)' % (nm, name), where(f, f.blocks[h].term.line))
+                        continue
                 ob.check(is_pos, '%s|carried-scalar|%s' % (nm, name), '%s: the scalar `%s` carried from record to record is a position in the input' % (nm, name),
                          '%s: the scalar `%s` (%s) keeps its value from one record to the next and is not a position in the input: the decoding of a record '
                          'depends on the records before it (initialise it inside the record loop)' % (nm, name, ty), where(f, f.blocks[h].term.line))
@@ -433,6 +438,6 @@ OBLIGATIONS = [
     ('C14.O4', 'run-length layer: reader table = writer table', 'the header layout bitfield_rle writes (read from the dependency\'s typed MIR: run = len << 2 | 1, '
      '| 2 for runs of 0xFF; literal = len << 1; varint groups of 7 bits) is the one rle_decode reads: same flag bits, same shifts, fill byte 0xFF/0x00 '
      'under the same bit, run appended to the current length.', o4, {'deps': True}),
-    ('C14.O5', 'record-local state', 'each codec loop (rle_decode, delta_decode, delta_encode) handles one record per iteration; loop-carried-state analysis (liveness at the loop header) shows that only buffers, iterators, the reference input and a position in the input survive from one record to the next: no scalar accumulator (varint shift, value, flag) leaks into the next record.', o5),
+    ('C14.O5', 'record-local state', 'each codec loop (rle_decode, delta_decode, delta_encode) handles one record per iteration; loop-carried-state analysis (liveness at the loop header) shows that only buffers, iterators, the reference input and a position in the input survive from one record to the next (a scalar that feeds nothing but comparisons and its own update -- a budget -- is allowed): no scalar accumulator (varint shift, value, flag) leaks into the next record.', o5),
     ('C14.C', 'lossy integer casts', 'every sign-changing cast (signed -> unsigned; NULL_FRAME is -1) and every narrowing cast to < 32 bits or from 128 bits in the crate is in range by a dominating guard, by the shape of its operand, or listed with a reason in tables/casts.json; see rules/casts.py', casts.rule),
 ]
